@@ -323,9 +323,9 @@ example : exL.slots.map (fun s => (s.ti, s.tf, s.targets)) =
 /-- The hypothesis `ChanInv` of every theorem above holds for the channels of this reachable
 sequence (by `C02.timeline_inv`). -/
 def exG_inv : ChanInv none exG :=
-  C02.timeline_inv exDev 3 exDev_ok exState ⟨exOps, rfl⟩ exG (by decide +kernel)
+  C02.timeline_inv exDev 3 exDev_ok exState (C02.Reach.of_run exDev 3 exOps) exG (by decide +kernel)
 def exL_inv : ChanInv none exL :=
-  C02.timeline_inv exDev 3 exDev_ok exState ⟨exOps, rfl⟩ exL (by decide +kernel)
+  C02.timeline_inv exDev 3 exDev_ok exState (C02.Reach.of_run exDev 3 exOps) exL (by decide +kernel)
 
 /-- Instruction 3 of the global channel is a pulse over [544, 596) that is not a detuned delay. -/
 def exG_slot3 : ∃ s p, IsPulseSlot exG 3 s p ∧ s.ti = 544 ∧ s.tf = 596 ∧ p.dd = false := by
